@@ -183,7 +183,11 @@ def real_fit_schemes(rng, n):
             feats["weight"] = True
         model = M(**md)
         nonneg = rng.random() < 0.5
-        params = Parameters.from_dict({"k": [["1", rates[0] * (1 + 0.1 * rng.random()), {"non-negative": nonneg}], ["2", rates[1] * (1 + 0.1 * rng.random()), {"non-negative": nonneg}]],
+        # a free parameter the model does not use (a left-over group of the parameter file), declared BEFORE the used ones: the Jacobian is
+        # rank deficient and the cut singular direction is not "the last parameter"
+        spare = {"aa": [["unused", 1.0]]} if rng.random() < 0.4 else {}
+        feats["unused_free_parameter_first"] = bool(spare)
+        params = Parameters.from_dict({**spare, "k": [["1", rates[0] * (1 + 0.1 * rng.random()), {"non-negative": nonneg}], ["2", rates[1] * (1 + 0.1 * rng.random()), {"non-negative": nonneg}]],
                                        "sc": [[str(d), 2.0, {"vary": False}] for d in range(nds)],
                                        "pen": [["1", 1.0, {"vary": False}]], "rel": [["1", 0.5, {"vary": False}]]})
         true = Parameters.from_dict({"k": [["1", rates[0]], ["2", rates[1]]], "sc": [[str(d), 2.0] for d in range(nds)], "pen": [["1", 1.0]], "rel": [["1", 0.5]]})
